@@ -58,7 +58,7 @@ SPARE_ROLES = {"S": EXIT_BT, "T": RELAY}     # S: alternative first hop, T: alte
 HORIZON = 26.0                               # virtual seconds after the build: retry timer (10 s) + next attempt + 6
 PROBE = b"c08-probe"
 OUTSIDE = ("9.9.9.9", 99)
-MECHANISM_CHECKS = True                      # oracle A (see module docstring)
+MECHANISM_CHECKS = False                     # oracle A demands more than the statement (see notes/C08.md): off, so that a tree on which the property holds is never flagged
 
 
 # ---------------------------------------------------------------------------------------------------------------------
